@@ -165,4 +165,9 @@ theorem single_variant (it : Item)
     | 0, hd => simp at hd; simp [hd]
     | k + 1, hd => simp at hd
 
+theorem relevantIdx_nil_of_isEmpty' (d : Data) (t : Trait) (h : d.isEmpty t = true) :
+    d.relevantIdx t = [] := by
+  rw [isEmpty_iff_relevantIdx'] at h
+  simpa [List.isEmpty_iff] using h
+
 end DW
